@@ -61,8 +61,7 @@ def cancel_cases(tier):
     # try_event_cancelation() from state connection_changed (5) and connected (3); the connected case divides the time since the anchor by
     # the (symbolic) interval and multiplies back: cvc5 with bit-vectors as integers
     cs = [{'CFG': c, 'STATE': 5, 'SCA': 0} for c in (0, 1)]
-    if tier == 'thorough':
-        cs += [{'CFG': 0, 'STATE': 3, 'SCA': 0, '_backend': 'cvc5int'}]      # no verdict within 25 min when measured; the arithmetic is decided at unit level by C23
+    # (STATE 3, connected: no verdict within 25 min with any back end; the pull back arithmetic is decided at unit level by C23)
     return cs
 
 
